@@ -1,3 +1,4 @@
 Require Import ExtrOcamlBasic.
-Require Import AV.Opt.Ctl AV.Gen.OptCtl AV.Opt.Model.
-Extraction "Opt/extracted/opt_model.ml" opt_state shown trace lvl opt_ctl.
+Require Import AV.Opt.Ctl AV.Gen.OptCtl AV.Opt.Model AV.Opt.FoamSem AV.Opt.Fold AV.Opt.Peep AV.Opt.Tool.
+Extraction "Opt/extracted/opt_model.ml" opt_state shown trace lvl opt_ctl
+  tool_cfold tool_peep z_to_dec z_of_dec ty_of_name name_of_ty has_fx frag_ops fx_ops.
